@@ -22,7 +22,7 @@ SHARD_TIMEOUT = {"quick": 900, "thorough": 3600}
 def gen_cases(tier, seed):
     rng = gen.rng_for(seed, "c13", tier)
     cases = []
-    n = 1000 if tier == "quick" else 40000
+    n = 2500 if tier == "quick" else 40000
     for k in range(n):
         rank = [2, 3, 4][k % 3]
         cases.append({"kind": "bn", "rank": rank, "C": int(rng.integers(1, 4)), "momentum": [0.1, 0.5, 1.0, None, 0.0][int(rng.integers(5))],
